@@ -166,21 +166,24 @@ pub fn compute_return_value_for_stubbed_function(
     call_tid: &Tid,
 ) -> DataDomain<BitvectorDomain> {
     use return_value_stubs::*;
-    match extern_symbol.name.as_str() {
-        "memcpy" | "memmove" | "memset" | "strcat" | "strcpy" | "strncat" | "strncpy" => {
+    // Ghidra may not be supplying parameter or return value information for a symbol.
+    // In that case the return value is untracked.
+    let has_param = !extern_symbol.parameters.is_empty();
+    let return_arg = extern_symbol.return_values.first();
+    match (extern_symbol.name.as_str(), return_arg) {
+        ("memcpy" | "memmove" | "memset" | "strcat" | "strcpy" | "strncat" | "strncpy", _)
+            if has_param =>
+        {
             copy_param(state, extern_symbol, 0)
         }
-        "fgets" => or_null(copy_param(state, extern_symbol, 0)),
-        "calloc" | "fopen" | "malloc" | "strdup" => {
-            or_null(new_mem_object_id(call_tid, &extern_symbol.return_values[0]))
+        ("fgets", _) if has_param => or_null(copy_param(state, extern_symbol, 0)),
+        ("calloc" | "fopen" | "malloc" | "strdup", Some(return_arg)) => {
+            or_null(new_mem_object_id(call_tid, return_arg))
         }
-        "realloc" => or_null(
-            copy_param(state, extern_symbol, 0).merge(&new_mem_object_id(
-                call_tid,
-                &extern_symbol.return_values[0],
-            )),
+        ("realloc", Some(return_arg)) if has_param => or_null(
+            copy_param(state, extern_symbol, 0).merge(&new_mem_object_id(call_tid, return_arg)),
         ),
-        "strchr" | "strrchr" | "strstr" => {
+        ("strchr" | "strrchr" | "strstr", _) if has_param => {
             or_null(param_plus_unknown_offset(state, extern_symbol, 0))
         }
         _ => untracked(project.stack_pointer_register.size),
